@@ -872,6 +872,28 @@ namespace bloch::runtime {
         return total;
     }
 
+    Value RuntimeEvaluator::bindToDeclared(Type* declared, Value v) const {
+        v = widenTo(declared, std::move(v));
+        if (v.type == Value::Type::Object && v.objectValue) {
+            if (auto named = dynamic_cast<NamedType*>(declared)) {
+                // Non-generic class types only: type parameters and instantiations keep the
+                // object's own class.
+                if (named->typeArguments.empty() && !named->nameParts.empty() &&
+                    findClass(named->nameParts.back()))
+                    v.className = named->nameParts.back();
+            }
+        }
+        return v;
+    }
+
+    Value RuntimeEvaluator::bindToDeclared(const RuntimeTypeInfo& declared, Value v) const {
+        v = widenTo(declared.kind, std::move(v));
+        if (v.type == Value::Type::Object && v.objectValue && declared.kind == Value::Type::Object &&
+            declared.typeArgs.empty() && !declared.className.empty() && findClass(declared.className))
+            v.className = declared.className;
+        return v;
+    }
+
     bool RuntimeEvaluator::valueMatchesType(const RuntimeTypeInfo& expected,
                                             const Value& actual) const {
         return valueConversionCost(expected, actual).has_value();
@@ -1246,7 +1268,7 @@ namespace bloch::runtime {
             slot = defaultValueForField(field, cls->name);
             if (field.hasInitializer && field.initializer) {
                 beginFrame();
-                slot = widenTo(field.type.kind, eval(field.initializer));
+                slot = bindToDeclared(field.type, eval(field.initializer));
                 endFrame();
             }
             m_inStaticContext = prevStatic;
@@ -1487,7 +1509,7 @@ namespace bloch::runtime {
                 thisVal.className = cls->name;
                 m_env.back()["this"] = {thisVal, false, true};
                 Value init = eval(field.initializer);
-                slot = widenTo(field.type.kind, init);
+                slot = bindToDeclared(field.type, init);
                 endFrame();
                 m_currentClassCtx = prevClass;
                 m_inStaticContext = prevStatic;
@@ -1525,8 +1547,8 @@ namespace bloch::runtime {
         thisVal.className = cls->name;
         m_env.back()["this"] = {thisVal, false, true};
         for (size_t i = 0; ctor && i < ctor->params.size() && i < args.size(); ++i) {
-            m_env.back()[ctor->params[i]->name] = {widenTo(ctor->params[i]->type.get(), args[i]),
-                                                   false, true};
+            m_env.back()[ctor->params[i]->name] = {
+                bindToDeclared(ctor->params[i]->type.get(), args[i]), false, true};
         }
 
         // Detect an explicit super(...) call as the first statement.
@@ -1613,7 +1635,7 @@ namespace bloch::runtime {
                 const auto& param = ctor->params[i];
                 auto fieldMeta = findInstanceField(cls, param->name);
                 if (fieldMeta && fieldMeta->offset < obj->fields.size()) {
-                    obj->fields[fieldMeta->offset] = widenTo(fieldMeta->type.kind, args[i]);
+                    obj->fields[fieldMeta->offset] = bindToDeclared(fieldMeta->type, args[i]);
                 }
             }
         }
@@ -1668,8 +1690,8 @@ namespace bloch::runtime {
         }
         m_returnValue = {};
         for (size_t i = 0; i < method->decl->params.size() && i < args.size(); ++i) {
-            Value::Type declared = i < method->params.size() ? method->params[i].kind : args[i].type;
-            m_env.back()[method->decl->params[i]->name] = {widenTo(declared, args[i]), false, true};
+            Value bound = i < method->params.size() ? bindToDeclared(method->params[i], args[i]) : args[i];
+            m_env.back()[method->decl->params[i]->name] = {bound, false, true};
         }
         bool prevReturn = m_hasReturn;
         m_hasReturn = false;
@@ -1680,7 +1702,7 @@ namespace bloch::runtime {
                     break;
             }
         }
-        Value ret = widenTo(method->decl->returnType.get(), m_returnValue);
+        Value ret = bindToDeclared(method->decl->returnType.get(), m_returnValue);
         m_returnValue = {};  // consumed: the slot must not keep a returned object alive
         endFrame();
         m_hasReturn = prevReturn;
@@ -1695,8 +1717,8 @@ namespace bloch::runtime {
         // Bind parameters, run the body until a return is hit, then unwind.
         beginFrame();
         for (size_t i = 0; i < fn->params.size() && i < args.size(); ++i) {
-            m_env.back()[fn->params[i]->name] = {widenTo(fn->params[i]->type.get(), args[i]), false,
-                                                 true};
+            m_env.back()[fn->params[i]->name] = {bindToDeclared(fn->params[i]->type.get(), args[i]),
+                                                 false, true};
         }
         bool prevReturn = m_hasReturn;
         m_returnValue = {};
@@ -1708,7 +1730,7 @@ namespace bloch::runtime {
                     break;
             }
         }
-        Value ret = widenTo(fn->returnType.get(), m_returnValue);
+        Value ret = bindToDeclared(fn->returnType.get(), m_returnValue);
         m_returnValue = {};  // consumed: the slot must not keep a returned object alive
         endFrame();
         m_hasReturn = prevReturn;
@@ -1950,7 +1972,7 @@ namespace bloch::runtime {
                         }
                     }
                 } else {
-                    v = widenTo(var->varType.get(), eval(var->initializer.get()));
+                    v = bindToDeclared(var->varType.get(), eval(var->initializer.get()));
                     initialized = true;
                 }
             }
@@ -3084,7 +3106,7 @@ namespace bloch::runtime {
                 if (instField) {
                     if (instField->offset < obj.objectValue->fields.size())
                         obj.objectValue->fields[instField->offset] =
-                            widenTo(instField->type.kind, rhs);
+                            bindToDeclared(instField->type, rhs);
                 } else {
                     auto [staticField, owner] =
                         obj.objectValue->cls
@@ -3092,12 +3114,12 @@ namespace bloch::runtime {
                             : std::pair<RuntimeField*, RuntimeClass*>{nullptr, nullptr};
                     if (staticField && owner && staticField->offset < owner->staticStorage.size())
                         owner->staticStorage[staticField->offset] =
-                            widenTo(staticField->type.kind, rhs);
+                            bindToDeclared(staticField->type, rhs);
                 }
             } else if (obj.type == Value::Type::ClassRef && obj.classRef) {
                 auto [field, owner] = findStaticFieldWithOwner(obj.classRef, memAssign->member);
                 if (field && owner && field->offset < owner->staticStorage.size())
-                    owner->staticStorage[field->offset] = widenTo(field->type.kind, rhs);
+                    owner->staticStorage[field->offset] = bindToDeclared(field->type, rhs);
             }
             return rhs;
         } else if (auto aassign = dynamic_cast<ArrayAssignmentExpression*>(e)) {
